@@ -53,9 +53,9 @@ type c06World struct {
 	cliCacheU *security.SessionCache
 	// claim layout: the keyed session K is not negotiated but minted as a claim session on
 	// the server and imported by the client (flagged inherited, finite lifetime, no lease)
-	claim     bool
-	claimOff  bool // ... minted with Encryption and Integrity both switched off in its policy
-	idKnown   bool
+	claim    bool
+	claimOff bool // ... minted with Encryption and Integrity both switched off in its policy
+	idKnown  bool
 }
 
 func (w *c06World) viol(key, f string, a ...any) {
@@ -327,7 +327,7 @@ func (w *c06World) probe(q c06Req, target *c06Sess) (clientWire []byte) {
 	}()
 	if resumed && !mayResume {
 		w.viol(fmt.Sprintf("resumed-%s-session/%s", what, q.label), "server resumed a session that is %s (request %s, virtual now %d, expiry %d); reported Authentication=%v Encryption=%v", what, q.label, w.now, expOf(target), r.S.Neg.Authentication, r.S.Neg.Encryption)
-		w.res.Outcome("VIOLATION-resumed-" + what)
+		w.res.Outcome("finding-resumed-" + what)
 	}
 	if !resumed && q.reply && q.raw == nil {
 		if !o.gotReply || o.replyCode != "SID_NOT_FOUND" {
@@ -343,7 +343,7 @@ func (w *c06World) probe(q c06Req, target *c06Sess) (clientWire []byte) {
 					kind = "replayed-connection"
 				}
 				w.viol(fmt.Sprintf("app-data-accepted/%s/%s", kind, q.label), "server handed application data %q to its caller although the requester does not hold the session key (%s)", trunc(r.S.AppGot), q.label)
-				w.res.Outcome("VIOLATION-app-accepted")
+				w.res.Outcome("finding-app-accepted")
 			}
 			// what the server wrote after the reply must be protected under the session key
 			frames := r.S2C
@@ -692,7 +692,7 @@ func c06BFS(depth int, res *vlib.Result, layout int) {
 func C06Plan() *vlib.Plan {
 	p := &vlib.Plan{
 		Property: "C06", Level: "model_checking", Workers: 1,
-		Rule:   "E-BFS on the real server resumption path. Events: establish a keyed session (real handshake), establish a key-less session (no common cipher), scripted resumption with the right id+key from another address, legitimate client resumption, advance virtual time by lease/2, lease+60, duration+60, invalidate K / L, sweep expired. A state is the event history replayed on a cleared cache; canonical key = (status and remaining-lifetime bucket of K and L, client still holds K, replay recorded). In EVERY state a battery of scripted requests is fired: {K, L, unknown id} x {wrong key, no key} x {reply requested, not} x {same, different source address}, every single-character alteration of a live id (once), and byte-for-byte replays (whole and truncated at every frame boundary) of a recorded legitimate resumed connection. The whole search runs four times: with the keyed session minted/imported as a claim session (inherited flag, finite lifetime, no lease) instead of negotiated, once with the default policy and once minted with Encryption and Integrity off (it still carries a key, and a resumed connection is protected by it); servers on the package-global cache, and servers configured with a SessionCache of their own and an identity-mapping PostAuthPolicy (sessions are invalidated through the package API, swept in both). Oracle = reference map id -> {key?, expiry, invalidated}. traces = states replayed; transitions = events + probes executed.",
+		Rule:   "E-BFS on the real server resumption path. Events: establish a keyed session (real handshake), establish a key-less session (no common cipher), scripted resumption with the right id+key from another address, legitimate client resumption, advance virtual time by lease/2, lease+60, duration+60, invalidate K / L, sweep expired. A state is the event history replayed on a cleared cache; canonical key = (status and remaining-lifetime bucket of K and L, client still holds K, replay recorded). In EVERY state a battery of scripted requests is fired: {K, L, unknown id} x {wrong key, no key} x {reply requested, not} x {same, different source address}, every single-character alteration of a live id (once), and byte-for-byte replays (whole and truncated at every frame boundary) of a recorded legitimate resumed connection. The whole search runs four times: with the keyed session minted/imported as a claim session (inherited flag, finite lifetime, no lease) instead of negotiated, once with the default policy and once minted with Encryption and Integrity off (it still carries a key, and a resumed connection is protected by it); servers on the package-global cache, and servers configured with a SessionCache of their own and an identity-mapping PostAuthPolicy (sessions are invalidated through the package API, swept in both). Plus late imports: a claim id whose embedded deadline lies {20 years, a day, an hour, 2 min} in the past, {2 min, an hour} ahead or is absent x importer fallback duration {none, 1 h} x {imported once, twice} is registered on the server and then resumed by a requester holding id and key: resumed iff the deadline has not passed. Oracle = reference map id -> {key?, expiry, invalidated}. traces = states replayed; transitions = events + probes executed.",
 		Assume: []string{"virtual time = re-storing every cache entry with its expiration moved back (public API), margins of 60 s against real time", "single process, sequential (the server-side cache is process-global)"},
 	}
 	p.Gen = func(tier string, yield func(vlib.Case)) {
@@ -718,6 +718,7 @@ func C06Plan() *vlib.Plan {
 			c06BFS(D, res, 3)
 			return res
 		}})
+		c06LateCases(yield)
 		// the same search over servers configured with a session cache of their own
 		yield(vlib.Case{ID: fmt.Sprintf("bfs/server-own-cache/depth=%d", D), Run: func() *vlib.Result {
 			res := &vlib.Result{}
